@@ -293,8 +293,10 @@ class Runner:
         kind = t.get("kind", "leaf")
         if kind.startswith("dep-"):
             return self.build_dep(st, x, kind), []
-        cls = {"leaf": S.Leaf, "node": S.Node, "wtask": S.WTask, "wnode": S.WNode}[kind]
+        cls = {"leaf": S.Leaf, "node": S.Node, "wtask": S.WTask, "wnode": S.WNode, "ptask": S.PTask}[kind]
         kwargs = {"x": x}
+        if kind == "ptask":
+            kwargs["m"] = S.Plain(v=x)
         pre, init, explicit = [], [], []
         for u, emb in t.get("deps", []):
             raw, out = st.obj[u], st.out[u]
